@@ -83,6 +83,10 @@ Definition bound_preds (b : bound) (g : generics) (bound_trait : toks)
 Definition core_path (segs : list string) : toks := rpath_toks (RCore segs).
 Definition inline_attr : toks := [P "#"; G Bracket [I "inline"]].
 
+Fixpoint index_from {A} (i : nat) (l : list A) : list (nat * A) :=
+  match l with [] => [] | x :: r => (i, x) :: index_from (S i) r end.
+Definition indexed {A} (l : list A) := index_from 0 l.
+
 (** field access name: the identifier, or the index for tuple fields *)
 Definition field_member (f : field) (index : nat) : string :=
   match f_name f with Some n => n | None => dec index end.
